@@ -48,6 +48,8 @@ _FORMAT_STRING_REGEX_BYTES = re.compile(_FORMAT_STRING_REGEX.encode("ascii"), _F
 _FORMAT_STRING_REGEX_TEXT = re.compile(_FORMAT_STRING_REGEX, _FLAGS)
 # All conversion types that accept numeric arguments
 _NUMERIC_CONVERSION_TYPES = set("diouxXeEfFgG")
+# Numeric conversion types that accept only integers (not floats)
+_INTEGER_CONVERSION_TYPES = set("oxX")
 _FORMAT_STRING_CONVERSIONS = {"r", "s", "a"}
 _IDENTIFIER_REGEX = re.compile(r"^[A-Za-z_][A-Za-z_\d]*$")
 
@@ -152,7 +154,13 @@ class ConversionSpecifier:
             yield from self.accept_no_mvv(val, ctx)
 
     def accept_no_mvv(self, arg: Value, ctx: CanAssignContext) -> Iterable[str]:
-        if self.conversion_type in _NUMERIC_CONVERSION_TYPES:
+        if self.conversion_type in _INTEGER_CONVERSION_TYPES:
+            if not TypedValue(_SupportsIndex).is_assignable(arg, ctx):
+                yield (
+                    f"%{self.conversion_type} conversion specifier accepts integers,"
+                    f" not {arg}"
+                )
+        elif self.conversion_type in _NUMERIC_CONVERSION_TYPES:
             # to deal with some code that sets global state to None and changes it later
             if not Numeric.is_assignable(arg, ctx):
                 yield (
